@@ -418,6 +418,8 @@ class Tr:
             if self.in_item:
                 raise Refuse(f"{self.fn}: &endItem inside Item")
             return "h.endItem", "ptr"
+        if k == "dotitem" and self.strip(e[1]) == ("id", "_begin") and not self.in_item and "_begin" not in env:
+            return "h.beginItem", "ptr"
         if k == "dotitem":
             t, ty = self.rv(e[1], env, "ptr")
             if ty != "ptr":
@@ -472,6 +474,14 @@ class Tr:
             return f"(¬ {self.cond(e[1], env)})"
         if e[0] == "bin" and e[1] in ("&&", "||"):
             return f"({self.cond(e[2], env)} {'∧' if e[1] == '&&' else '∨'} {self.cond(e[3], env)})"
+        if e[0] == "bin" and e[1] in ("==", "!="):
+            x, y = self.strip(e[2]), self.strip(e[3])
+            if y[0] == "id" and env.get(y[1]) == "cellptr":
+                x, y = y, x
+            if x[0] == "id" and env.get(x[1]) == "cellptr":
+                if y[0] != "addr":
+                    raise Refuse(f"{self.fn}: Item** compared with something that is not `&lvalue`")
+                return f"({lean_name(x[1])} {'=' if e[1] == '==' else '≠'} {self.lv(y[1], env)})"
         if e[0] == "bin" and e[1] in ("==", "!=", "<", ">", "<=", ">="):
             a, ta = self.rv(e[2], env)
             b, tb = self.rv(e[3], env)
@@ -528,6 +538,11 @@ class Tr:
             return f"{ind}let {lean_name(x)} := {t}\n", env, lean_name(x)
         if lhs[0] == "id" and self.in_item and lhs[1] in self.fields:
             lhs = ("field", ("id", "this"), lhs[1])
+        if lhs[0] == "dotitem" and self.strip(lhs[1]) == ("id", "_begin") and not self.in_item:
+            t, tt = self.rv(rhs, env, "ptr")
+            if tt != "ptr":
+                raise Refuse(f"{self.fn}: {tt} stored into _begin.item")
+            return f"{ind}let h := h.setBegin {t}\n", env, None
         if lhs[0] == "id" and not self.in_item and lhs[1] == "root":
             t, tt = self.rv(rhs, env, "ptr")
             if tt != "ptr":
@@ -1188,6 +1203,25 @@ def translate_header(path):
         loop = ("for", None) + loop[2:]
     asts["insertDescend"] = (sorted(hoisted, key=lambda d: d[2]) + [loop, ("goto", "insertLeaf")], iparams, "desc")
     order2.append("insertDescend")
+    # the threading of the new item into the prev/next list: the statements between the `if(!parent) { first item }`
+    # block and the upward loop
+    mfp = re.search(r"if\s*\(\s*!\s*parent\s*\)\s*\{", ibody)
+    if not mfp:
+        raise Refuse("insertThread: `if(!parent) {` not found in the private insert")
+    fend = balanced(ibody, mfp.end() - 1)
+    if fend > dos[0]:
+        raise Refuse("insertThread: the upward loop is not behind the first-item block")
+    frag = ibody[fend:dos[0]]
+    frag = re.sub(r"^\s*else\s*\{", "", frag)
+    frag = re.sub(r"(usize|ssize)\s+\w+\s*;\s*$", "", frag.rstrip()) if re.search(r"(usize|ssize)\s+\w+\s*;\s*$", frag.rstrip()) else frag
+    toks = tokenize(frag)
+    norm["insertThread"] = toks
+    p = P(toks, "insertThread")
+    items = p.block_items()
+    if p.peek() is not None or not items:
+        raise Refuse("insertThread: cannot isolate the threading statements")
+    asts["insertThread"] = (items, [("cellptr", "cell"), ("ptr", "parent"), ("ptr", "item")], "void")
+    order2.append("insertThread")
     # the head of remove(it): cell computation, the three trivial cases, the choice of the neighbour
     m = re.search(r"Iterator\s+remove\s*\(\s*const\s+Iterator\s*&\s*(\w+)\s*\)\s*\{", src)
     if not m:
